@@ -37,6 +37,8 @@ vars == <<w, sid, par>>
 View == w
 
 T0 == 1700000000
+\* "upmon": the second monitor is configured in an upper-case spelling of its address (legal, stored verbatim)
+Monitors0 == IF "upmon" \in Extras THEN {"mon1", "MON2"} ELSE {"mon1", "mon2"}
 Staker == "staker"
 Collector == "collector"
 Channel == "channel-1"
@@ -48,7 +50,7 @@ Cfg == [natPrefix |-> IF SamePrefix THEN "osmo" ELSE "celestia",
         valPrefix |-> IF SamePrefix THEN "osmovaloper" ELSE "celestiavaloper", tokenDenom |-> "utia",
         validators |-> {"val1", "val2"}, unbonding |-> Unbonding, staker |-> Staker, collector |-> Collector,
         protoPrefix |-> "osmo", channel |-> Channel, natDen |-> NatD, minStake |-> MinStake,
-        oracle |-> OracleAddr, fee |-> FeeRate, treasury |-> TreasuryAddr, monitors |-> {"mon1", "mon2"},
+        oracle |-> OracleAddr, fee |-> FeeRate, treasury |-> TreasuryAddr, monitors |-> Monitors0,
         batchPeriod |-> BatchPeriod, lst |-> LstD]
 
 StartFunds == 12
@@ -69,6 +71,7 @@ Init ==
                     /\ PrintT("MODEL " \o ToJson([users |-> Users, fee |-> FeeRate, treasury |-> TreasuryAddr,
                                oracle |-> OracleAddr, minStake |-> MinStake, batchPeriod |-> BatchPeriod,
                                unbonding |-> Unbonding, halted |-> StartHalted, funds |-> StartFunds, samePrefix |-> SamePrefix,
+                               monitors |-> SetToSeq(Monitors0),
                                treasuryContract |-> "tspend" \in Extras])))
 
 ---------------------------------------------------------------------------
@@ -218,16 +221,24 @@ Matrix       == ("matrix" \in Extras \/ "matrixadmin" \in Extras) /\ \E u \in Pr
                      \/ Do([m |-> "transfer_ownership", s |-> u, to |-> "admin2", tvalid |-> TRUE])
                      \/ Do([m |-> "revoke_ownership_transfer", s |-> u])
                      \/ Do([m |-> "accept_ownership", s |-> u])
+\* the admin changes the batch period while a batch is collecting requests (its deadline must not move; the next batch
+\* uses the new period), and clears the monitor list (a former monitor can no longer halt the contract)
+Reperiod     == "period" \in Extras /\ w.c.cfg.batchPeriod = BatchPeriod /\
+                  Do([m |-> "update_config", s |-> w.c.admin, up |-> [period |-> [secs |-> BatchPeriod + 1]]])
+Demonitor    == "demonitor" \in Extras /\ w.c.cfg.monitors # {} /\
+                  Do([m |-> "update_config", s |-> w.c.admin, up |-> [monitorsec |-> [list |-> << >>, valid |-> TRUE]]])
 TopUp        == "long" \in Returns /\ Get(w.nat.bal, Staker) < MaxN /\ Do(NatFundCall(Staker, 1))
 Relay        == \E p \in w.ibc.fly, o \in Outcomes : Do(AckCall(p.seq, o))
 Recover_     == \E u \in Principals, rcv \in {""} \cup {NatOf(x) : x \in Users}, f \in FailSeqs :
                   (\E p \in w.c.pk : Refundable(p)) /\ Do(RecoverCall(u, rcv, f))
 \* admin-selected recovery: one packet, the same packet listed twice (counts once), and two packets
 \* (and an EMPTY selection, with and without tracked packets: refused, never an index into nothing)
+\* ("forceinflight": the admin also re-sends packets that are still in flight - the history stops being honest, but
+\*  each tracked packet is still re-sent at most once and a late callback for it is a callback for an unknown packet)
 Forced       == AdminOps /\
                 \/ \E u \in Principals : Do(ForcedCall(u, << >>, ""))
                 \/ \E p \in w.c.pk, u \in Principals :
-                  /\ Refundable(p)
+                  /\ (Refundable(p) \/ ("forceinflight" \in Extras /\ u = w.c.admin))
                   /\ \/ \E sel \in {<<p.seq>>, <<p.seq, p.seq>>} :
                           Do(ForcedCall(u, sel, IF p.rcv = Staker THEN "" ELSE p.rcv))
                      \/ \E q \in w.c.pk : q.seq > p.seq /\ Refundable(q) /\
@@ -245,7 +256,7 @@ Resume       == AdminOps /\ w.c.stopped /\ \E u \in Principals, k \in ResumeScal
 Tick         == \E t \in TimePoints : Do(TimeCall(t))
 
 Next == Stake \/ StakeVariants \/ BadInputs \/ Unstake \/ Submit \/ Withdraw_ \/ Rewards \/ ReturnBatch \/ WrongSender \/ Direct \/ TopUp
-        \/ Relay \/ Stray_ \/ Recover_ \/ Forced \/ FeeWithdraw_ \/ Breaker \/ Resume \/ Matrix \/ Toggle \/ TSpend \/ Rechannel \/ NewCounter \/ Tick
+        \/ Relay \/ Stray_ \/ Recover_ \/ Forced \/ FeeWithdraw_ \/ Breaker \/ Resume \/ Matrix \/ Toggle \/ TSpend \/ Rechannel \/ NewCounter \/ Reperiod \/ Demonitor \/ Tick
 
 Spec == Init /\ [][Next]_vars
 
